@@ -275,6 +275,37 @@ def rule_a(ctx, ix, f):
            detail='bounds_for_cache substitutes the wildcard under `%s`: a ranged bound on a non-contributing axis is stored as a '
                   'wildcard, and a later request with a scalar there is answered with the array of the ranged request (another shape)'
                   % (pc,), where=g.where)
+    # what is stored as part of a key must not be the caller's own (mutable) list of bounds: the helper hands back a new list
+    from ..flow import Flow
+
+    def classify(e, state):
+        if isinstance(e, ast.Name):
+            return {t for t in state.get(e.id, ()) if not t.startswith('<')}
+        if isinstance(e, (ast.List, ast.ListComp, ast.Tuple, ast.GeneratorExp, ast.BinOp, ast.Dict, ast.Set)):
+            return {'fresh'}
+        if isinstance(e, ast.Call):
+            nm = call_name(e)
+            if nm in ('list', 'tuple', 'copy', 'deepcopy', 'sorted', 'array', 'asarray') or isinstance(e.func, ast.Attribute) and nm == 'copy':
+                return {'fresh'}
+            return {'unknown'}
+        if isinstance(e, ast.IfExp):
+            return classify(e.body, state) | classify(e.orelse, state)
+        if isinstance(e, ast.Subscript) and isinstance(e.slice, ast.Slice):
+            return {'fresh'} if classify(e.value, state) else {'unknown'}       # a slice of a list is a new list
+        return {'unknown'}
+    at_ret = []
+
+    def on_stmt(st, state):
+        if isinstance(st, ast.Return) and st.value is not None:
+            at_ret.append((st, classify(st.value, state)))
+    Flow(classify, on_stmt=on_stmt).run(g.node, {p_: frozenset(['param']) for p_ in g.params})
+    if not at_ret:
+        raise AnalysisError('bounds_for_cache: no return value seen')
+    for st_, tags in at_ret:
+        ctx.ob(R, g.construct + ' result', 'the bounds stored in the cache keys are a new list, never the caller\'s own', 'param' not in tags,
+               detail='bounds_for_cache can return its argument itself (`%s` may be the list the caller passed): the key stored in the '
+                      'cache is then an alias of the caller\'s list, follows every later in-place change of it (bounds[0] = z in a '
+                      'slice loop), and the next request "hits" with the array of the previous one' % norm(st_), where=where(g, st_))
     for st in keys:
         ctx.ob(R, f.construct + ' bounds slot', 'bounds is the second element of the key (the slot the wildcard replaces)',
                unparse(st.value.elts[1]) == 'bounds', detail='bounds is not at index 1 of %s' % unparse(st.value), where=where(f, st.st),
